@@ -3,6 +3,7 @@ pub mod c02;
 pub mod c03;
 pub mod c05;
 pub mod c06;
+pub mod c07;
 pub mod c08;
 pub mod c09;
 pub mod c10;
@@ -25,6 +26,7 @@ pub fn run(prop: &str, tier: Tier, seed: u64) -> i32 {
         "C03" => c03::run(tier, seed),
         "C05" => c05::run(tier, seed),
         "C06" => c06::run(tier, seed),
+        "C07" => c07::run(tier, seed),
         "C08" => c08::run(tier, seed),
         "C09" => c09::run(tier, seed),
         "C10" => c10::run(tier, seed),
@@ -57,6 +59,7 @@ pub fn replay(prop: &str, path: &str) -> i32 {
         "C03" => c03::replay(&doc),
         "C05" => c05::replay(&doc),
         "C06" => c06::replay(&doc),
+        "C07" => c07::replay(&doc),
         "C08" => c08::replay(&doc),
         "C09" => c09::replay(&doc),
         "C10" => c10::replay(&doc),
